@@ -238,6 +238,8 @@ def run(R):
               "judged for optimality like every target not known to be in gamut. Finely sampled sequences: one (thorough: three) series of 112..144 slowly varying targets (frames of an intensity ramp, 0.055..0.107 % per frame, "
               "8..12 % in total; in gamut, or pushed out of it by a fixed factor per receptor; captures of order one) is fitted in ONE call by each model (solver=CLARABEL); the first, the last and four random frames are judged "
               "exactly like the rows of the small batches - every frame is a target of its own, whatever its neighbours are. "
+              "Dark channel: for 60 % of the systems with two or more receptors (not with W='inverse') one receptor of the second outside target is exactly 0 "
+              "(boundary value of targets >= 0; a receptor every source excites, preferably one whose K*baseline is 0 too: both boundary values at once), judged for optimality like every target not known to be in gamut. "
               "Non-trivial: target outside the gamut or on its boundary, or baseline non-zero.")
     KINDS = ["inside", "inside", "boundary", "outside", "outside"]
     rows = []
@@ -312,6 +314,27 @@ def run(R):
                 j_ = int(wr.integers(nf)); W[1, j_] = 2.0 if W[0, j_] != 2.0 else 1.0
         elif W is None and wr.random() < 0.25:
             wk = "inverse"
+        # a dark channel (own random stream): the property quantifies over targets >= 0, and an exact 0 - a receptor that is to stay dark -
+        # is the boundary value that the positive floor above never produces. For 60 % of the systems with two or more receptors (not with
+        # W='inverse', which is 1/B) one receptor of the second outside target is set to exactly 0; the receptor is one that every source
+        # excites (A' > 0 in its row: the predicted capture stays positive whenever any light is on), three times out of four one whose
+        # dark capture K*baseline is 0 as well when there is one (both boundary values at once: the log term of the likelihood vanishes
+        # and only the linear term w*pred keeps light out of that receptor). Judged like every target not known to be in gamut.
+        dr = R.rng(13, si)
+        kinds = list(kinds)
+        if S["nf"] >= 2 and wk != "inverse" and dr.random() < 0.6:
+            lit_ = [d_ for d_ in range(S["nf"]) if np.all(S["Ap"][d_] > 0)]
+            zb_ = [d_ for d_ in lit_ if S["bp"][d_] == 0]
+            if zb_ and dr.random() < 0.75:
+                lit_ = zb_
+            if lit_:
+                d_ = int(dr.choice(lit_))
+                if np.any(np.delete(B[4], d_) > 0):
+                    B[4, d_] = 0.0
+                    kinds[4] = kinds[4] + "+dark-channel"
+                    R.count("dark-channel(target exactly 0):baseline of that receptor %s" % ("zero" if S["bp"][d_] == 0 else "positive"))
+        if not kinds[4].endswith("+dark-channel"):
+            R.count("dark-channel(target exactly 0):none")
         # WR: the weights of every row, as values (what the model gets)
         WR = np.ones((len(B), nf)) if wk == "none" else (1 / B if wk == "inverse" else np.broadcast_to(W, (len(B), nf)).copy())
         W1 = "inverse" if wk == "inverse" else (None if W is None else (W[:1] if W.ndim == 2 else W))     # weights of the first target alone
@@ -663,6 +686,11 @@ def run(R):
                 continue
             for i in range(len(B)):
                 t = R.driver.get("%s%s_%d" % (ptag, k, i)); inb = t.bool(); minp = t.rat(); gap = t.tok()
+                pr0_ = Ap @ np.clip(np.asarray(oq[0])[i], S["lb"], S["ub"]) + bp
+                if inb and minp == 0 and c["target_kinds"][i].endswith("+dark-channel") and "sequence" not in c and np.all(B[i][pr0_ <= 0] == 0):
+                    # the answer switches every source off exactly and the dark receptor has no dark capture: predicted capture exactly 0
+                    # where the target is 0 (0 log 0); the gap certificate needs positive predictions. Counted, not judged.
+                    R.count("%s:dark-channel:predicted capture exactly 0 (not judged)" % pname); continue
                 ok = inb and minp > 0 and gap != "none"
                 gv = float(parse_rat(gap)) if gap != "none" else float("inf")
                 scale = float(np.sum(wv[i] * (B[i] + 1)))
